@@ -651,6 +651,10 @@ func ruleErrProp(p *core.Program) []core.Obligation {
 				return
 			}
 			if consumed(errVal, map[ssa.Value]bool{}) {
+				if at := overwrittenUnobserved(errVal); at != nil {
+					obs = append(obs, core.Ob(rule, key, p.Pos(ins.Pos()), core.FuncName(fn), core.Violated, "on the path through "+p.Pos(at.Instrs[0].Pos())+" the error is overwritten by a later assignment before anything looks at it: a failure of this call is lost when the later call succeeds"))
+					return
+				}
 				obs = append(obs, core.Ob(rule, key, p.Pos(ins.Pos()), core.FuncName(fn), core.Held, "returned, stored, sent or passed on"))
 			} else {
 				obs = append(obs, core.Ob(rule, key, p.Pos(ins.Pos()), core.FuncName(fn), core.Violated, "the error is at most compared with nil and then dropped (e.g. assigned to a variable that shadows the one the function returns): a storage or operator failure ends the stream as if it were exhausted"))
@@ -1073,4 +1077,283 @@ func rulePoint0(p *core.Program) []core.Obligation {
 		})
 	}
 	return obs
+}
+
+func init() {
+	register(&Rule{ID: "R-OUTALIAS", Min: 1, Run: ruleOutAlias,
+		Doc: "a step vector that an operator hands out never shares its Samples/SampleIDs slices with the operator's own long-lived state: consumers transform vectors in place and recycle them into pools (ownership passes with the batch), so output slices are filled by append/copy"})
+	register(&Rule{ID: "R-SLABCAP", Min: 1, Run: ruleSlabCap,
+		Doc: "a sub-slice of a buffer allocated in the same function that is kept (stored into a field or element) inside a loop carries an explicit capacity (three-index slice): otherwise neighbouring sub-slices share spare capacity and an append into one overwrites the next"})
+	register(&Rule{ID: "R-HASHSAME", Min: 1, Run: ruleHashSame,
+		Doc: "where an operator de-duplicates its output series by hashing a label set, the label set appended to the announced series list is the very value that was hashed: the identity key of an output series is computed from its output labels"})
+
+	mutant(Mutant{Rule: "R-OUTALIAS", Name: "step-invariant-shares-cache", File: "execution/step_invariant/step_invariant.go",
+		Old: "\t\toutVector.Samples = append(outVector.Samples, u.cachedVector.Samples...)\n\t\toutVector.SampleIDs = append(outVector.SampleIDs, u.cachedVector.SampleIDs...)\n", New: "\t\toutVector.Samples = u.cachedVector.Samples\n\t\toutVector.SampleIDs = u.cachedVector.SampleIDs\n", Expect: "stepInvariantOperator"})
+	mutant(Mutant{Rule: "R-SLABCAP", Name: "window-buffers-from-one-slab", File: "execution/scan/matrix_selector.go",
+		Old: "\t\tfor i, s := range series {\n\t\t\tlbls := s.Labels()\n\t\t\tif o.funcExpr.Func.Name != \"last_over_time\" {", New: "\t\tpoints := make([]promql.Point, len(series)*8)\n\t\tfor i, s := range series {\n\t\t\to.scanners[i].previousPoints = points[i*8 : i*8]\n\t\t\tlbls := s.Labels()\n\t\t\tif o.funcExpr.Func.Name != \"last_over_time\" {", Expect: "matrixSelector"})
+	mutant(Mutant{Rule: "R-HASHSAME", Name: "name-dropped-after-hash", File: "execution/function/histogram.go",
+		Old: "\t\tif !ok {\n\t\t\to.series = append(o.series, lbls)", New: "\t\tif !ok {\n\t\t\tlbls, _ = DropMetricName(lbls)\n\t\t\to.series = append(o.series, lbls)", Expect: "histogramOperator"})
+}
+
+// rootedAtReceiver reports whether the access path of v starts at the method's receiver.
+func rootedAtReceiver(fn *ssa.Function, v ssa.Value) bool {
+	if len(fn.Params) == 0 || fn.Signature.Recv() == nil {
+		return false
+	}
+	recv := ssa.Value(fn.Params[0])
+	for d := 0; d < 10 && v != nil; d++ {
+		if v == recv {
+			return true
+		}
+		switch x := v.(type) {
+		case *ssa.UnOp:
+			if x.Op != token.MUL {
+				return false
+			}
+			v = x.X
+		case *ssa.FieldAddr:
+			v = x.X
+		case *ssa.Field:
+			v = x.X
+		case *ssa.IndexAddr:
+			v = x.X
+		case *ssa.Slice:
+			v = x.X
+		default:
+			return false
+		}
+	}
+	return false
+}
+
+func ruleOutAlias(p *core.Program) []core.Obligation {
+	const rule = "R-OUTALIAS"
+	var obs []core.Obligation
+	n := 0
+	for _, fn := range p.Funcs {
+		if !strings.HasPrefix(core.Rel(fn.Pkg.Pkg.Path()), "execution") || fn.Signature.Recv() == nil {
+			continue
+		}
+		core.EachInstr(fn, func(b *ssa.BasicBlock, i int, ins ssa.Instruction) {
+			st, ok := ins.(*ssa.Store)
+			if !ok {
+				return
+			}
+			f, base, ok := stepVectorField(st.Addr)
+			if !ok || rootedAtReceiver(fn, base) {
+				return
+			}
+			n++
+			if rootedAtReceiver(fn, st.Val) {
+				recv := recvNamed(fn)
+				obs = append(obs, core.Ob(rule, fmt.Sprintf("%s.%s hands out operator state as %s", recv.Obj().Name(), fn.Name(), f), p.Pos(st.Pos()), core.FuncName(fn), core.Violated,
+					"the output step vector's "+f+" is the operator's own slice, not a copy: a consumer that transforms the batch in place or recycles it into a pool corrupts the operator's state for all later steps"))
+			}
+		})
+	}
+	obs = append(obs, core.Ob(rule, "output step vectors are filled by append/copy", "-", "", core.Held, fmt.Sprintf("%d stores into Samples/SampleIDs of non-state step vectors examined", n)))
+	return obs
+}
+
+func ruleSlabCap(p *core.Program) []core.Obligation {
+	const rule = "R-SLABCAP"
+	var obs []core.Obligation
+	n := 0
+	for _, fn := range p.Funcs {
+		depth := core.LoopDepth(fn)
+		core.EachInstr(fn, func(b *ssa.BasicBlock, i int, ins ssa.Instruction) {
+			sl, ok := ins.(*ssa.Slice)
+			if !ok || sl.Max != nil || (sl.Low == nil && sl.High == nil) {
+				return
+			}
+			if _, isSlice := sl.X.Type().Underlying().(*types.Slice); !isSlice {
+				return
+			}
+			// base allocated in this function (or its enclosing function for closures)
+			local := false
+			for v := range core.PhiClosure(sl.X) {
+				if _, ok := v.(*ssa.MakeSlice); ok {
+					local = true
+				}
+			}
+			if !local || depth[b] == 0 {
+				return
+			}
+			n++
+			keptAt := ""
+			for _, r := range core.Referrers(sl) {
+				if st, ok := r.(*ssa.Store); ok && st.Val == ssa.Value(sl) {
+					switch st.Addr.(type) {
+					case *ssa.FieldAddr, *ssa.IndexAddr:
+						keptAt = p.Pos(st.Pos())
+					}
+				}
+			}
+			if keptAt != "" {
+				recv := "func"
+				if r := recvNamed(fn); r != nil {
+					recv = r.Obj().Name()
+				}
+				obs = append(obs, core.Ob(rule, fmt.Sprintf("%s %s keeps sub-slices of one allocation", recv, fn.Name()), keptAt, core.FuncName(fn), core.Violated,
+					"sub-slices of one buffer are kept as independent buffers without a capacity limit (use buf[a:b:b]): appending to one writes into its neighbour, so results depend on how series are distributed over shards"))
+			}
+		})
+	}
+	obs = append(obs, core.Ob(rule, "no kept two-index sub-slice of a local allocation in a loop", "-", "", core.Held, fmt.Sprintf("%d candidate slice expressions examined", n)))
+	return obs
+}
+
+func ruleHashSame(p *core.Program) []core.Obligation {
+	const rule = "R-HASHSAME"
+	var obs []core.Obligation
+	for _, fn := range p.Funcs {
+		if !strings.HasPrefix(core.Rel(fn.Pkg.Pkg.Path()), "execution") {
+			continue
+		}
+		var hashed []ssa.Value
+		var appended []ssa.Value
+		var pos token.Pos
+		core.EachInstr(fn, func(b *ssa.BasicBlock, i int, ins ssa.Instruction) {
+			call, ok := ins.(*ssa.Call)
+			if !ok {
+				return
+			}
+			switch core.CalleeName(&call.Call) {
+			case "(" + pkgLabels + ".Labels).Bytes", "(" + pkgLabels + ".Labels).Hash":
+				hashed = append(hashed, call.Call.Args[0])
+			}
+			if bi, ok := call.Call.Value.(*ssa.Builtin); ok && bi.Name() == "append" {
+				if s, ok := call.Type().Underlying().(*types.Slice); ok && isLabelsType(s.Elem()) {
+					// the appended element(s): stores into the varargs array
+					if vs, ok := call.Call.Args[1].(*ssa.Slice); ok {
+						if al, ok := vs.X.(*ssa.Alloc); ok {
+							for _, r := range core.Referrers(al) {
+								if ia, ok := r.(*ssa.IndexAddr); ok {
+									for _, rr := range core.Referrers(ia) {
+										if st, ok := rr.(*ssa.Store); ok {
+											appended = append(appended, st.Val)
+											pos = st.Pos()
+										}
+									}
+								}
+							}
+						}
+					}
+				}
+			}
+		})
+		if len(hashed) == 0 || len(appended) == 0 {
+			continue
+		}
+		recv := "func"
+		if r := recvNamed(fn); r != nil {
+			recv = r.Obj().Name()
+		}
+		key := fmt.Sprintf("%s.%s hashes the label set it announces", recv, fn.Name())
+		ok := true
+		for _, a := range appended {
+			match := false
+			for _, h := range hashed {
+				if a == h {
+					match = true
+				}
+			}
+			if !match {
+				ok = false
+			}
+		}
+		if ok {
+			obs = append(obs, core.Ob(rule, key, p.Pos(pos), core.FuncName(fn), core.Held, "the appended label set is the hashed value"))
+		} else {
+			obs = append(obs, core.Ob(rule, key, p.Pos(pos), core.FuncName(fn), core.Violated, "the label set appended to the series list is not the value that was hashed to decide whether it is new: two input series whose output labels coincide get separate, identically labelled output series"))
+		}
+	}
+	return obs
+}
+
+// overwrittenUnobserved follows an error value forward along every CFG path. If on some path the value
+// dies at a phi that selects a different value (the variable was re-assigned) before any instruction has
+// used it, the block where that happens is returned.
+func overwrittenUnobserved(e ssa.Value) *ssa.BasicBlock {
+	def, ok := e.(ssa.Instruction)
+	if !ok {
+		return nil
+	}
+	type state struct {
+		b     *ssa.BasicBlock
+		alias ssa.Value
+	}
+	seen := map[state]bool{}
+	var bad *ssa.BasicBlock
+	usedIn := func(b *ssa.BasicBlock, from int, alias ssa.Value) bool {
+		for _, ins := range b.Instrs[from:] {
+			if _, isPhi := ins.(*ssa.Phi); isPhi {
+				continue
+			}
+			var ops []*ssa.Value
+			for _, op := range ins.Operands(ops) {
+				if op != nil && *op == alias {
+					if _, dbg := ins.(*ssa.DebugRef); dbg {
+						continue
+					}
+					return true
+				}
+			}
+		}
+		return false
+	}
+	var walk func(b *ssa.BasicBlock, from int, alias ssa.Value)
+	walk = func(b *ssa.BasicBlock, from int, alias ssa.Value) {
+		if bad != nil {
+			return
+		}
+		if usedIn(b, from, alias) {
+			return
+		}
+		for _, s := range b.Succs {
+			// which incoming edge of s is b
+			idx := -1
+			for k, pr := range s.Preds {
+				if pr == b {
+					idx = k
+				}
+			}
+			next := alias
+			killed := false
+			for _, ins := range s.Instrs {
+				phi, ok := ins.(*ssa.Phi)
+				if !ok {
+					break
+				}
+				if idx >= 0 && phi.Edges[idx] == alias {
+					next = phi
+				} else if idx >= 0 && phiMerges(phi, alias) {
+					// the same variable takes another value on this edge: the error we follow is dead here
+					killed = true
+				}
+			}
+			if killed && next == alias {
+				bad = s
+				return
+			}
+			st := state{s, next}
+			if seen[st] {
+				continue
+			}
+			seen[st] = true
+			walk(s, 0, next)
+		}
+	}
+	walk(def.Block(), core.InstrIndex(def)+1, e)
+	return bad
+}
+
+// phiMerges reports whether alias is one of the values phi merges (on some other edge).
+func phiMerges(phi *ssa.Phi, alias ssa.Value) bool {
+	for _, e := range phi.Edges {
+		if e == alias {
+			return true
+		}
+	}
+	return false
 }
